@@ -2,6 +2,7 @@
 from ..gen import cells as G
 from ..gen import maps as M
 from ..translate import labelfns as tr
+from ..translate import hashmapsrc as hmsrc
 from . import C09
 
 SPEC = dict(
@@ -26,7 +27,8 @@ SPEC = dict(
                    'that the hash equals the on-chain one rests on c10_canonical + c10_unique + Spec/Hashmap.lean being the reference format, on C01 (cell hash), and is cross-checked on samples against an independent Python transcription of dict.cpp.',
         technique='Lean 4 proof (label functions translated from source, hand model for tree/parse) + differential correspondence + independent reference serialiser',
     ),
-    translators=[('hashmap/utils.py->Generated/LabelFns.lean', tr.regenerate)],
+    translators=[('hashmap/utils.py->Generated/LabelFns.lean', tr.regenerate),
+                 ('hashmap/parse.py+utils.py->Generated/HashmapSrc.lean', hmsrc.regenerate)],
     design_ref='DESIGN.md §6 C10',
     rule='(a) maps whose root label realises a given (len, max, constant?, bit): hash of HashMap.serialize() vs an independent transcription of the '
          'reference serialiser, all triples with max<=40/64 and boundary lens for every max<=1023 (sampled in quick); (b) spec-valid trees built by an '
@@ -451,7 +453,42 @@ def overlong_cases(ctx):
                         overlong_case(ctx, n, kind, length, path, ybits, rng.getrandbits(32), f'overlong{t}')
 
 
+def src_search(ctx):
+    """Search mode only (a `c10_src_*` obligation or the tie broke): Lean evaluates the regenerated parser / serialiser
+    (Generated/HashmapSrc.lean) against the hand model on the translator's validation inputs; the differing points are judged by
+    property-level oracles first: a label point by the independent transcription of hashmap.tlb `HmLabel` (`hmsrc.ref_hml`: the
+    library's `deserialize_hml` must return exactly the spec's (n, s, rest) and raise on everything else), a serialiser point by the
+    reference serialiser (`canon_case`).  True = a concrete failing input was found."""
+    found = hmsrc.diff_points(ctx)
+    n0 = len(ctx.failures)
+    from pytoniq_core.boc.hashmap.parse import deserialize_hml
+    for bits, m in found['hml'][:40]:
+        inp = {'kind': 'hml', 'bits': bits, 'm': m}
+        want = hmsrc.ref_hml(bits, m)
+
+        def f():
+            sl = hmsrc._py_slice((-1, bits, ()))
+            n, s = deserialize_hml(sl, m)
+            return n, s.to01(), sl.bits.to01()
+        got = call(f)
+        ctx.case(('src-hml', bits, m), sample=inp)
+        if want is None and not is_err(got):
+            ctx.fail('label-reader:accepted', 'deserialize_hml returned on bits that are no HmLabel under this bound (hashmap.tlb)', inp, got, 'raises')
+        elif want is not None and (is_err(got) or tuple(got) != tuple(want)):
+            ctx.fail('label-reader:wrong', 'deserialize_hml does not return the label hashmap.tlb denotes', inp, got, want)
+    for n, items in found['ser'][:20]:
+        if len({v for _, v in items}) == 1 and all(0 <= k < (1 << n) for k, _ in items):
+            canon_case(ctx, n, [k for k, _ in items], items[0][1], 'src-ser')
+        else:
+            for k, v in items:
+                canon_case(ctx, n, [k2 for k2, _ in items], v, 'src-ser')
+                break
+    return len(ctx.failures) > n0
+
+
 def run(ctx):
+    if ctx.search and src_search(ctx):
+        return
     label_cases(ctx)
     tree_cases(ctx)
     overlong_cases(ctx)
@@ -463,6 +500,21 @@ def replay(ctx, payload):
         canon_case(ctx, inp['n'], [int(k) for k in inp['keys']], inp['vbits'], inp.get('tag', 'replay'))
     elif inp.get('kind') == 'tree':
         replay_tree(ctx, inp)
+    elif inp.get('kind') == 'hml':
+        from pytoniq_core.boc.hashmap.parse import deserialize_hml
+        bits, m = inp['bits'], inp['m']
+        want = hmsrc.ref_hml(bits, m)
+
+        def f():
+            sl = hmsrc._py_slice((-1, bits, ()))
+            n, s = deserialize_hml(sl, m)
+            return n, s.to01(), sl.bits.to01()
+        got = call(f)
+        ctx.case(('src-hml', bits, m), sample=inp)
+        if want is None and not is_err(got):
+            ctx.fail('label-reader:accepted', 'deserialize_hml returned on bits that are no HmLabel under this bound (hashmap.tlb)', inp, got, 'raises')
+        elif want is not None and (is_err(got) or tuple(got) != tuple(want)):
+            ctx.fail('label-reader:wrong', 'deserialize_hml does not return the label hashmap.tlb denotes', inp, got, want)
     elif inp.get('kind') == 'overlong':
         overlong_case(ctx, inp['n'], inp['ctor'], inp['length'], [tuple(p) for p in inp['path']], inp['ybits'], inp['seed_bits'], inp.get('tag', 'replay'))
 
